@@ -6,7 +6,8 @@ MARKER = b'\\ No newline at end of file'
 PAYLOADS = [b'', b'x', b'- removed looks', b'+ added looks', b'-- a/file',
             b'++ b/file', b'@@ -1 +1 @@', b'@@ -1,2 +3,4 @@ ctx', b' ',
             b'\\ No newline at end of file', b'#.change:', b'\x00\xff',
-            b'tab\there', b'trailing \r', b'diff --git a b', b'---', b'+++']
+            b'tab\there', b'trailing \r', b'diff --git a b', b'---', b'+++',
+            b'%d %s %(line)r', b'100%']
 
 GARBAGE = [b'diff --git a/x b/x', b'index 123..456 100644', b'--- a/file',
            b'+++ b/file', b'Index: file', b'====', b'', b'garbage',
@@ -41,7 +42,8 @@ def gen_hunk(rng, max_side=12):
             return b'%d' % start
         return b'%d,%d' % (start, n)
     ctx = rng.choice([None, None, b'def f():', b'', b'@@ tricky @@',
-                      b'  spaced  '])
+                      b'  spaced  ', b'printf("%d items", n);', b'100%',
+                      b'%(line)s %(line_num)d', b'%s %', b'{0} {line}'])
     header = b'@@ -%s +%s @@' % (rng_part(orig_start, orig_n),
                                  rng_part(mod_start, mod_n))
     if ctx is not None:
